@@ -21,7 +21,8 @@ def run(ck):
     for nm in ("verify_proof", "add_virtual_proof_with_pis", "constant_verifier_data"):
         cs = prog.call_sites(r"CircuitBuilder<F, D>>?::%s$|circuit_builder::CircuitBuilder::<F, D>::%s$|::%s$" % (nm, nm, nm))
         cs = [(b, bb, t) for b, bb, t in cs if t.get("name") == nm and t.get("impl_adt") == T.CB]
-        callers = sorted(set(b.path for b, _, _ in cs))
+        from . import e2
+        callers = sorted(set(e2.root_of(prog, b).path for b, _, _ in cs))   # a closure belongs to the function it is written in
         ck.require(callers == [REC], "WMC", "callers/" + nm, "%s is called only from add_recursive_verifiers" % nm, cs[0][0].loc(cs[0][1]) if cs else None, callers)
     for nm in ("conditionally_verify_proof", "conditionally_verify_proof_or_dummy", "conditionally_verify_cyclic_proof", "verify_proof_with_verifier_data"):
         cs = [x for x in prog.call_sites(r"::%s$" % nm)]
@@ -52,8 +53,9 @@ def run(ck):
         oks = circ.ok_members(fr.return_term())
         good = False
         if len(oks) == 1:
-            cs = T.contents(effs, P.norm(oks[0]))
-            good = len(cs) == 1 and cs[0][0] == "one" and P.norm(cs[0][1]) == P.norm(ap[0].result) and circ.loops_of(cs[0][2]) == lp_v
+            # one pushed value per iteration of the verify loop, or the value of a `.map(..).collect()` over the same range
+            pv = circ.per_iteration_value(fr, effs, oks[0])
+            good = pv is not None and pv[0] == P.norm(ap[0].result) and len(lp_v) == 1 and pv[1] == P.norm(lp_v[0])
         ck.require(good, "PAIR", "rec/returns-verified", "the returned proof targets are exactly the verified ones, one per iteration", vp[0].loc)
     # validate_proof_count dominates
     vc = [(bb, t) for bb, t in body.calls() if t.get("name") == "validate_proof_count"]
